@@ -381,6 +381,10 @@ func (w *worker) runWithBackoffRetry(ctx context.Context, receiver resultReceive
 		if count, scanErr = w.run(ctx, receiver); scanErr == nil {
 			return true, nil
 		}
+		if !receiver.restartable() {
+			// part of the result is already with the client: fail instead of sending it twice
+			return false, scanErr
+		}
 		return false, nil
 	})
 
